@@ -60,6 +60,8 @@ def repo_of(path):
 
 
 def lexical(path):
+    if path == '/lnk' or path.startswith('/lnk/'):
+        path = '/ws' + path[4:]          # /lnk is a symbolic link to /ws in the model workspace
     out = []
     for c in path.split('/'):
         if c in ('', '.'):
@@ -202,7 +204,7 @@ def install(M):
     M.env['observability::spawn_background_flush'] = noop
 
 
-FILES = ['/ws/r1/a', '/ws/r1/sub/b', '/ws/r2/c', '/ws/loose', '/else/x', 'a', '../r2/c', '/ws/r1/nested/n',
+FILES = ['/lnk/r2/c', '/ws/r1/a', '/ws/r1/sub/b', '/ws/r2/c', '/ws/loose', '/else/x', 'a', '../r2/c', '/ws/r1/nested/n',
          '/ws/r1/new', '/ws/r2/newdir/y', '/ws/r1/../r2/c', '/ws/r1/sub/../../r2/new']
 
 
@@ -212,7 +214,7 @@ def plan(tier, seed):
         tasks.append(('dispatch', {'preset': p, 'outcome': 'error'}))
     nf = 2 if tier == 'quick' else 3
     for kind in ('Human', 'AiAgent', 'AiTab'):
-        for wd, cwd in ((None, '/ws/r1'), (None, '/ws'), ('/ws/r1', '/ws'), ('/ws', '/ws/r1'), ('/ws/r1/nested', '/ws'), ('/nowhere', '/ws'), ('/ws/r2', '/ws/r1')):
+        for wd, cwd in ((None, '/ws/r1'), (None, '/ws'), ('/ws/r1', '/ws'), ('/ws', '/ws/r1'), ('/ws/r1/nested', '/ws'), ('/nowhere', '/ws'), ('/ws/r2', '/ws/r1'), ('/lnk', '/ws/r1'), ('/lnk/r1', '/ws')):
             tasks.append(('dispatch', {'preset': 'claude', 'outcome': 'result', 'kind': kind, 'wd': wd, 'cwd': cwd, 'nfiles': nf}))
     for p in PRESETS[1:]:
         tasks.append(('dispatch', {'preset': p, 'outcome': 'result', 'kind': 'AiAgent', 'wd': '/ws', 'cwd': '/ws', 'nfiles': 2}))
@@ -231,6 +233,7 @@ def ob_dispatch(h, shape):
     P.state['c20'] = st
     P.state['fs'] = {k: (v if v == 'DIR' else pystring(v)) for k, v in LAYOUT_FS.items()}
     P.state['cwd'] = st['cwd']
+    P.state['symlinks'] = {'/lnk': '/ws'}
     files = None
     if shape['outcome'] == 'result':
         n = h.choice(shape['nfiles'] + 1)
@@ -310,6 +313,8 @@ K2_PATHS = ['a', 'sub/b', './a', 'sub/../a', '../r2/c', '/ws/r1/a', '/ws/r1/sub/
 
 
 def os_resolve(fs, path):
+    if path == '/lnk' or path.startswith('/lnk/'):
+        path = '/ws' + path[4:]
     """where the OS would look (no symlinks); None if a `..` climbs out of something that does not exist"""
     out = []
     for c in path.split('/'):
@@ -449,6 +454,7 @@ def _scratch():
         os.makedirs(os.path.join(root, d))
     for f in ('ws/r1/a', 'ws/r1/sub/b', 'ws/r2/c', 'ws/loose', 'else/x', 'ws/r1/nested/n'):
         open(os.path.join(root, f), 'w').write('one\n')
+    os.symlink(os.path.join(root, 'ws'), os.path.join(root, 'lnk'))
     for r in ('ws/r1/nested', 'ws/r1', 'ws/r2'):
         d = os.path.join(root, r)
         subprocess.run(['git', 'init', '-q', '.'], cwd=d, env=env, check=True)
@@ -504,10 +510,18 @@ def _native_run(native, root, env, cwd, kind, wd, files, dirty=None):
     return p.returncode, p.stderr.decode('utf-8', 'replace')
 
 
-def _native_case(native, kind, cwd, wd, files, dirty=None):
+def _native_case(native, kind, cwd, wd, files, dirty=None, corrupt=()):
+    import glob
+    import os
     import subprocess
     root, env = _scratch()
     try:
+        for r_ in corrupt:
+            # a working log whose checkpoints cannot be read: the checkpoint of that repository fails
+            head = subprocess.run(['git', 'rev-parse', 'HEAD'], cwd=root + r_, env=env, stdout=subprocess.PIPE).stdout.decode().strip()
+            d_ = os.path.join(root + r_, '.git', 'ai', 'working_logs', head)
+            os.makedirs(d_, exist_ok=True)
+            open(os.path.join(d_, 'checkpoints.jsonl'), 'w').write('{"kind":"AiAgent","diff":"d","auth')
         rc, stderr = _native_run(native, root, env, cwd, kind, wd, files, dirty)
         stderr = stderr.replace(root, '')
         rec = _recorded(root)
@@ -589,11 +603,14 @@ def replay(v, native):
             return {'reproduced': False, 'note': 'an empty path makes git reject the pathspec list: not judged natively'}
     else:
         sh = inp['shape']
-        if inp.get('files') is None or inp.get('run_fails') or inp.get('excluded') or sh.get('kind') == 'AiTab' or len(inp.get('argv', [])) > 1:
+        if inp.get('files') is None or inp.get('excluded') or sh.get('kind') == 'AiTab' or len(inp.get('argv', [])) > 1:
             return {'reproduced': False, 'note': 'preset errors, failing checkpoints, excluded repositories, AiTab results and flag combinations cannot be staged through the agent-v1 payload'}
         kind, cwd, wd, files = sh['kind'], sh['cwd'], sh['wd'] or sh['cwd'], inp['files']
-    r = _native_case(native, kind, cwd, wd, files)
+    r = _native_case(native, kind, cwd, wd, files, corrupt=tuple(inp.get('run_fails') or ()) if not ob.startswith('K2') else ())
     bad, why = _judge(kind, cwd, wd, files, r)
+    if inp.get('run_fails') and not ob.startswith('K2'):
+        # with failing checkpoints only the way the command ends is judged
+        bad = {k: b for k, b in bad.items() if k in ('K1-no-panic', 'K1-exit-status-zero')}
     if v['kind'] == 'panic':
         return {'reproduced': r['rc'] == 101, 'native': r}
     return {'reproduced': bool(bad.get(ob)), 'native': r, 'why': why}
@@ -608,6 +625,7 @@ NATIVE_CASES = [
     ('AiAgent', '/ws/r1', '/ws/r1', ['/ws/r1/../r2/c', 'sub/../a', '/ws/r1x/a', '..', '/']),
     ('AiAgent', '/ws', '/nowhere', ['/ws/r1/a']),
     ('AiAgent', '/ws/r1', '/ws/r1', ['/ws/r2/c']),
+    ('AiAgent', '/ws', '/lnk', ['/lnk/r2/c', '/ws/r1/a']),
     ('AiAgent', '/ws/r1', '/ws/r1', ['../r2/c', '/else/x']),
     ('Human', '/ws', '/ws', ['/ws/r1/a', '/ws/r2/c']),
 ]
@@ -637,6 +655,6 @@ def replay_priority(v):
     files = inp.get('files') or []
     wd = sh.get('wd') or sh.get('cwd') or '/'
     base = repo_of(lexical(wd)) or wd
-    unstageable = bool(inp.get('run_fails') or inp.get('excluded') or sh.get('kind') in ('AiTab', 'Human') or len(inp.get('argv', [])) > 1 or inp.get('files') is None)
+    unstageable = bool(inp.get('excluded') or sh.get('kind') in ('AiTab', 'Human') or len(inp.get('argv', [])) > 1 or inp.get('files') is None)
     missing = sum(1 for f in files if os_resolve(LAYOUT_FS, f if f.startswith('/') else base + '/' + f) not in EXISTING)
     return (1 if unstageable else 0, missing, len(files))
